@@ -19,7 +19,7 @@ RULE = ('random import graphs (1-5 files, generator of C17) and single-file stri
         'absolute path of the file containing the offending text (None for strings), (line, col) is the 1-based position of '
         'that text in that file. distinct = (graph shape, kind, location class, layout); non-trivial = error in an imported '
         'file or preceded by a multi-line layout')
-REQUIRED = {'syntax_error_at_end_of_text': 50, 'syntax_error_at_end_of_unterminated_last_line': 20, 'errors_checked': 500, 'kind_syntax': 50, 'kind_unknown': 50, 'kind_not_unique': 50, 'kind_postponed': 50,
+REQUIRED = {'two_string_models_cases': 50, 'syntax_error_at_end_of_text': 50, 'syntax_error_at_end_of_unterminated_last_line': 20, 'errors_checked': 500, 'kind_syntax': 50, 'kind_unknown': 50, 'kind_not_unique': 50, 'kind_postponed': 50,
             'in_main_file': 100, 'in_imported_file': 100, 'string_loads': 50,
             'in_reference_list': 100, 'in_reference_list_not_first': 50, 'files_with_cr_line_ends': 50,
             'files_with_crlf_line_ends': 50, 'not_unique_definitions_in_imported_file': 30}
@@ -30,11 +30,50 @@ def linecol(text, off):
     return text.count('\n', 0, off) + 1, off - (text.rfind('\n', 0, off) + 1) + 1
 
 
+def string_models(ctx, i, rep):
+    """Both models come from strings (file name None for both): a library model handed to a GlobalRepo provider with
+    add_model defines a name twice, the model being loaded refers to it. The error belongs to the text being loaded."""
+    from textx import metamodel_from_str, TextXError
+    import textx.scoping.providers as sp
+    r = ctx.rng('strings', i)
+    lib = r.choice(['', '\n', '// lib\n\n']) + 'def dup' + r.choice([' ', '\n\n   ', '\n']) + 'def other ' + r.choice(['', '\n\n\n']) + 'def dup\n'
+    lead = ''.join(r.choice(['def a%d\n' % k, '\n', '   \n', '// c\n', 'def b%d ' % k]) for k in range(r.randint(0, 9)))
+    stmt = 'ref zz ->' + r.choice([' ', '   ', '\n  ', '\t']) 
+    text = lead + stmt + 'dup' + r.choice(['', '\n', ' def tail\n'])
+    offset = len(lead) + len(stmt)
+    prov = (sp.PlainNameGlobalRepo if r.random() < 0.7 else sp.FQNGlobalRepo)()
+    mm = metamodel_from_str(M.GRAMMAR)
+    mm.register_scope_providers({'*.*': prov})
+    libm = mm.model_from_str(lib)
+    prov.add_model(libm)
+    wit = {'library_model (string)': lib, 'model (string)': text, 'provider': type(prov).__name__, 'offset': offset}
+    ctx.count('two_string_models_cases')
+    ctx.case(('two-string-models', text.count('\n', 0, offset), type(prov).__name__), True, wit if ctx.evaluations < 3 else None)
+    try:
+        mm.model_from_str(text)
+    except TextXError as e:
+        el, ec = linecol(text, offset)
+        got = (getattr(e, 'filename', None), getattr(e, 'line', None), getattr(e, 'col', None))
+        if 'not unique' not in str(e):
+            # (the FQN lookup takes the first match: no ambiguity error there)
+            ctx.violation(None, 'two string models: unexpected error %s' % str(e)[:100], wit, rep)
+            return
+        ctx.count('errors_checked')
+        if got != (None, el, ec):
+            ctx.violation(None, 'not-unique error for a reference in a string model (library model also a string): reported at '
+                          '%s:%s:%s, the offending text is at None:%d:%d' % (got[0], got[1], got[2], el, ec), wit, rep)
+        return
+    if isinstance(prov, sp.PlainNameGlobalRepo):
+        ctx.violation(None, 'two string models: the ambiguous name resolved without error', wit, rep)
+
+
 def one(ctx, i, rep=None):
     from textx import metamodel_from_str, TextXError
     from textx.scoping import Postponed
     import textx.scoping.providers as sp
     rep = rep or {'i': i}
+    if i % 20 == 13:
+        return string_models(ctx, i, rep)
     r = ctx.rng('e', i)
     tmp = tempfile.mkdtemp(prefix='tvc28_')
     try:
